@@ -1,5 +1,5 @@
 (* Single executable entry point of the extracted model: opcode :: payload. *)
-From GV Require Import Base.Prelude Lang.Location Lang.Lexer Lang.Visit Lang.VisitWire Lang.PrintString.
+From GV Require Import Base.Prelude Lang.Location Lang.Render Lang.Lexer Lang.Visit Lang.VisitWire Lang.PrintString.
 
 Definition nat_of (n : N) : nat := N.to_nat n.
 Definition of_nat (n : nat) : N := N.of_nat n.
@@ -27,6 +27,13 @@ Definition run (inp : list N) : list N :=
       end
   | 3 :: line :: ls :: pos :: s =>
       let '(l, c) := scan_lines (nat_of line) (nat_of ls) (nat_of pos) s in [of_nat l; of_nat c]
+  | 4 :: pad :: lineoff :: line :: column :: namelen :: rest =>
+      let n := nat_of namelen in
+      match print_source_location (firstn n rest) (nat_of pad) (nat_of lineoff) (nat_of line)
+                                  (nat_of column) (skipn n rest) with
+      | None => [0]
+      | Some t => 1 :: t
+      end
   | 10 :: body => enc_lex (lex body)
   | 11 :: body => enc_lex (coord_lex body)
   | 12 :: body => print_string body
